@@ -291,7 +291,7 @@ pub fn generate(seed: u64, n: usize, thorough: bool, corpus: Option<&str>) -> Ve
         cases.push(run(src, vec!["stream:grammar".into()], &mut pool));
     }
     // ---- numeric extremes in every compile-time position
-    let mut slow_budget = if thorough { 60 } else { 4 };
+    let mut slow_budget = if thorough { 20 } else { 4 };
     for _ in 0..n / 4 {
         let (tag, src) = numeric_program(&mut r);
         // a numeric extreme in a range bound is the known "range as large as a user number" shape: rationed
